@@ -37,9 +37,12 @@ class EvalModel(object):
         # score container: local assigned collections.OrderedDict()
         self.scores_root = None
         self.stores = []  # (key string, mutate site)
+        ret_origins = [o for o in (_container_origin(r.term) for r in s.returns) if o is not None]
         for m in s.by_kind("mutate"):
             if m.how == "setitem" and m.root is not None and m.key.op == "const" and isinstance(m.key.a[0], str):
                 base = _container_origin(m.old)
+                if base is not None and ret_origins and not any(base is o for o in ret_origins):
+                    continue  # a store into another dict (a per-call copy of the keyword arguments), not into the result
                 if base is not None:
                     self.scores_root = m.root
                     self.container = call_name(base)
@@ -978,6 +981,7 @@ def rule_preproc(ctx):
         yield ob("C03.PREPROC", em.func, "segment.evaluate:%s@%d:adjusted" % (callee, _ordinal(em.summ, c)), not probs, "; ".join(probs) if probs else "interval/label arguments come from adjust_intervals(t_min=0[, t_max=ref end])", node=c.node)
     # hierarchy: _align_intervals
     em = models["hierarchy"]
+    ctx.program.func("hierarchy._align_intervals", "C03.PREPROC")  # (anchor: evaluated in place when its signature changed)
     for c in em.calls:
         callee = tm.callee_name(c.fn)
         if not c.via_filter:
